@@ -50,6 +50,10 @@ impl Template {
             });
         }
     }
+    /// the rendering in which every insignificant-whitespace site holds `ws` and everything else its default
+    pub fn render_ws(&self, ws: &str) -> String {
+        self.sites.iter().map(|s| if s.alts.len() == WS_MENU.len() && s.alts[0].is_empty() && s.alts[1] == " " { ws } else { s.alts[0].as_str() }).collect()
+    }
     pub fn count_deviations(&self, k: usize) -> u64 {
         let mut n = 0;
         self.deviations(k, |_| n += 1);
@@ -296,6 +300,36 @@ pub fn nested_chain(depth: usize, array: bool) -> V {
     let mut v = V::int(1);
     for _ in 0..depth {
         v = if array { V::Arr(vec![v]) } else { V::Obj(vec![("a".into(), v)]) };
+    }
+    v
+}
+
+/// The position grid: atoms of every kind (also ones that print with an exponent, or look like the start of another
+/// token) placed at every position of every nesting shape. A shape is a sequence of wrappers applied innermost first:
+/// the only / first / last / middle element of an array, the only / first / last / middle member of an object.
+pub const GRID_WRAPPERS: usize = 8;
+pub fn grid_atoms() -> Vec<V> {
+    ["null", "true", "false", "0", "-1.5", "1e300", "12345678901234567890", "2.5e-9", "\"\"", "\"s\"", "\"tru\"", "[]", "{}"].iter().map(|s| p(s)).collect()
+}
+/// member names for the object wrappers of a shape: ordinary, empty, spelled like a literal or a number, with a blank,
+/// not ASCII, holding a quote, holding a line feed
+pub fn grid_names() -> Vec<&'static str> {
+    vec!["a", "", "true", "null", "1", "-1.5e3", "a b", "\u{e9}", "\"", "k\n"]
+}
+pub fn grid_value(shape: &[usize], name: &str, atom: &V) -> V {
+    let mut v = atom.clone();
+    for w in shape {
+        let n = || name.to_string();
+        v = match w {
+            0 => V::Arr(vec![v]),
+            1 => V::Arr(vec![v, V::int(7)]),
+            2 => V::Arr(vec![V::s("f"), v]),
+            3 => V::Arr(vec![V::int(7), v, V::s("f")]),
+            4 => V::Obj(vec![(n(), v)]),
+            5 => V::Obj(vec![(n(), v), ("z".into(), V::int(7))]),
+            6 => V::Obj(vec![("y".into(), V::s("f")), (n(), v)]),
+            _ => V::Obj(vec![("y".into(), V::int(7)), (n(), v), ("z".into(), V::s("f"))]),
+        };
     }
     v
 }
